@@ -11,9 +11,11 @@ docs/src/metrics/METRICS_FROM_HOOKS.md, structured like MetricStorage.SendBatch)
   1. TLC checks AtomicValidation, GroupReplaced, OthersUntouched, ValueRules, GroupOrderIrrelevant (action
      properties, stated declaratively over reg -> reg') and TypeOK
        - exhaustively over every history with exactly two operations ([op,op] and [op][op]; Cases.cfg, every
-         history is a state and is exported with the registry TLC expects after each batch),
-       - exhaustively with the history hidden by a VIEW over <= 2 batches x <= 2 operations (MC_quick: <= 3
-         operations per history; MC_thorough: all of them),
+         history is a state and is exported with the registry TLC expects after each batch) and over every single
+         batch of three operations on one name with four label sets (Cases3.cfg, label-shape changes inside a batch),
+       - exhaustively with the history hidden by a VIEW over <= 2 batches x <= 2 operations (MC_quick: one name,
+         <= 3 operations per history; MC_thorough: two names, <= 3 operations; MC_thorough_b: two names, one hook,
+         all <= 4 operations),
        - along simulated behaviours of 4 batches x <= 3 operations (Sim.cfg), which are exported as well, in two
          families: `full` (whole domain) and `clean` (AvoidOpen: histories stay clear of the input classes of the
          open findings, so that they are compared over their whole length).
@@ -98,11 +100,18 @@ def gen_cases(ctx):
     return hs, r
 
 
-def model_check(ctx):
-    cfg = ctx.pick("MC_quick.cfg", "MC_thorough.cfg")
-    r = vlib.tlc(ctx, SPEC, "Metrics", cfg, timeout=ctx.pick(300, 1700), workers=ctx.pick(_tlc_workers(), 8),
-                 expect_violation=False, want_prints=False, coverage=False)
-    return r
+def gen_triples(ctx):
+    r = vlib.tlc(ctx, SPEC, "Metrics", ctx.pick("Cases3.cfg", "Cases3_thorough.cfg"), timeout=ctx.pick(300, 900), workers=2,
+                 expect_violation=False)
+    hs = [h for h in r["prints"] if h]
+    if not hs:
+        raise Infra("Cases3.cfg exported no history")
+    return hs, r
+
+
+def model_check(ctx, cfg):
+    return vlib.tlc(ctx, SPEC, "Metrics", cfg, timeout=ctx.pick(300, 1700), workers=ctx.pick(_tlc_workers(), 6),
+                    expect_violation=False, want_prints=False, coverage=False)
 
 
 def asis(ctx, cfg):
@@ -111,9 +120,9 @@ def asis(ctx, cfg):
     return cfg, defect, prop, r
 
 
-def run_harness(ctx, binary, cases):
-    inp = ctx.path("cases.jsonl")
-    outp = ctx.path("results.jsonl")
+def _run_shard(ctx, binary, cases, n):
+    inp = ctx.path("shard%d" % n, "cases.jsonl")
+    outp = ctx.path("shard%d" % n, "results.jsonl")
     vlib.write_jsonl(inp, cases)
     r = vlib.run_bin(ctx, binary, ["replay", "-in", inp, "-out", outp], timeout=1500)
     if r["rc"] != 0:
@@ -122,6 +131,21 @@ def run_harness(ctx, binary, cases):
     if len(res) != len(cases):
         raise Infra("metrics replay returned %d results for %d cases" % (len(res), len(cases)))
     return res
+
+
+def run_harness(ctx, binary, cases, shards=4):
+    """Replay the cases on the real code, in `shards` supervised processes; results in case order."""
+    shards = max(1, min(shards, len(cases) // 500 + 1))
+    parts = [cases[i::shards] for i in range(shards)]
+    with concurrent.futures.ThreadPoolExecutor(max_workers=shards) as ex:
+        outs = list(ex.map(lambda a: _run_shard(ctx, binary, a[1], a[0]), enumerate(parts)))
+    by_id = {}
+    for part in outs:
+        for r in part:
+            by_id[r["case"]] = r
+    if len(by_id) != len(cases):
+        raise Infra("metrics replay: %d distinct results for %d cases" % (len(by_id), len(cases)))
+    return [by_id[c["id"]] for c in cases]
 
 
 def short_op(o):
@@ -229,20 +253,25 @@ def check_c16(ctx):
     with concurrent.futures.ThreadPoolExecutor(max_workers=8) as ex:
         f_build = ex.submit(vlib.go_build, ctx, "metrics")
         f_cases = ex.submit(gen_cases, ctx)
+        f_triples = ex.submit(gen_triples, ctx)
         f_full = ex.submit(gen_sim, ctx, "full", nsim)
         f_clean = ex.submit(gen_sim, ctx, "clean", nsim)
-        f_mc = ex.submit(model_check, ctx)
+        f_mc = [ex.submit(model_check, ctx, c) for c in ctx.pick(["MC_quick.cfg"], ["MC_thorough.cfg", "MC_thorough_b.cfg"])]
         f_asis = [ex.submit(asis, ctx, c) for c in asis_cfgs]
         binary = f_build.result()
         pairs, rc = f_cases.result()
+        triples, rt = f_triples.result()
         full = f_full.result()
         clean = f_clean.result()
-        mc = f_mc.result()
+        mcs_done = [f.result() for f in f_mc]
         asis_res = [f.result() for f in f_asis]
     ctx.log("TLC %s: %d histories of two operations, every one a state (%d states), properties hold, %.0fs" %
             (rc["cfg"], len(pairs), rc["distinct"], rc["wall_s"]))
-    ctx.log("TLC %s: %d generated / %d distinct states, depth %d, properties hold, %.0fs" %
-            (mc["cfg"], mc["generated"], mc["distinct"], mc["depth"], mc["wall_s"]))
+    ctx.log("TLC %s: %d single batches of three operations on one name (%d states), properties hold, %.0fs" %
+            (rt["cfg"], len(triples), rt["distinct"], rt["wall_s"]))
+    for mc in mcs_done:
+        ctx.log("TLC %s: %d generated / %d distinct states, depth %d, properties hold, %.0fs" %
+                (mc["cfg"], mc["generated"], mc["distinct"], mc["depth"], mc["wall_s"]))
     for cfg, defect, prop, r in asis_res:
         if r["violated"] not in prop:
             raise Infra("as-it-was model %s (%s): TLC reports %s, expected one of %s" % (cfg, defect, r["violated"], prop))
@@ -254,7 +283,7 @@ def check_c16(ctx):
     ctx.cov["transitions"] = sum(t["generated"] for t in mcs)
 
     cases = []
-    for fam, hs in (("pairs", pairs), ("full", full), ("clean", clean)):
+    for fam, hs in (("pairs", pairs), ("triples", triples), ("full", full), ("clean", clean)):
         for h in hs:
             cases.append({"id": len(cases), "family": fam, "batches": h})
     res = run_harness(ctx, binary, cases)
@@ -277,7 +306,7 @@ def check_c16(ctx):
     ctx.cov["batches_compared"] = {"applied": applied, "rejected": rejected, "refused_as_a_whole_accepted": alt}
     ctx.cov["features"] = feat
     ctx.cov["differences_by_signature"] = by_sig
-    for h in (clean[0], clean[len(clean) // 2], full[0], pairs[len(pairs) // 3], pairs[-1]):
+    for h in (clean[0], clean[len(clean) // 2], full[0], pairs[len(pairs) // 3], triples[len(triples) // 2], pairs[-1]):
         ctx.sample({"batches": [{"hook": b["hook"], "ops": [short_op(o) for o in b["ops"]], "rejected": b["err"],
                                  "registry_after": short_post(b["post"])} for b in h]})
     ctx.assumptions += [
@@ -288,7 +317,8 @@ def check_c16(ctx):
         "a batch with an ungrouped operation whose label names differ from the first ungrouped use of the name may either be applied "
         "or be refused as a whole",
     ]
-    vlib.finish(ctx, rule="histories: every admissible history with exactly two operations (TLC exhaustive, Cases.cfg) plus TLC-simulated "
+    vlib.finish(ctx, rule="histories: every admissible history with exactly two operations and every batch of three operations on one name "
+                          "(TLC exhaustive, Cases.cfg / Cases3.cfg) plus TLC-simulated "
                           "behaviours of 4 batches x <= 3 operations (full and clean family, seed); each replayed in 3 syntaxes; "
                           "evaluations = batches whose error result and gathered registry were compared with TLC's expectation; "
                           "distinct_nontrivial = distinct histories in which at least one batch changes the expected registry")
